@@ -262,7 +262,7 @@ class BundleFlattener(ElabPass):
         # Everything the connection brings along must have a place to go:
         # members the port does not have would otherwise be dropped silently.
         extras = [path for path in flat.signals if path not in flat_bundle_port.signals]
-        if extras and isinstance(flat.src, AnonymousBundle):
+        if extras:
             msg = f"Invalid connection to `{portname}` on Instance `{inst.name}`: "
             msg += f"no such member(s) `{['.'.join(p.segs) for p in extras]}` in its Bundle. "
             self.fail(msg)
